@@ -770,6 +770,37 @@ def builtin_collect(ex, name, args, kwargs, st, node):
     if name in ("list", "tuple", "sorted", "set", "frozenset"):
         # listing of a key set / set in arbitrary (or sorted) order: a duplicate-free sequence with that element set
         dom = iter_domain(ex, x, st) if not (isinstance(x, ViewVal) and x.kind == "setlisting") else ("set", x.base)
+        if dom[0] == "dict" and dom[2] == "items" and name in ("tuple", "list"):
+            # listing of the items of a dict in arbitrary order: a sequence of (key, value) pairs, every key exactly once
+            d = dom[1]
+            pt = TTuple([d.t.k, d.t.v])
+            es = esort(pt)
+            seq = z3.Const(fresh_name("itemlisting"), z3.SeqSort(es))
+            i, j = z3.Int(fresh_name("i")), z3.Int(fresh_name("j"))
+            n = z3.Length(seq)
+
+            def pair(ix):
+                p = eunpack(seq[ix], pt)
+                return p.v[0], p.v[1]
+
+            ki, vi = pair(i)
+            kj, _ = pair(j)
+            st.pc.append(z3.ForAll([i], z3.Implies(z3.And(i >= 0, i < n), z3.And(
+                heapops.dict_has(st.heap, d, ki), *[a == b for a, b in zip(vi.terms(), heapops.dict_read(st.heap, d, ki).terms())]))))
+            st.pc.append(z3.ForAll([i, j], z3.Implies(z3.And(i >= 0, i < j, j < n), z3.Not(val_eq(ki, kj)))))
+            k = d.t.k.fresh("k")
+            st.pc.append(z3.ForAll(k.terms(), z3.Implies(heapops.dict_has(st.heap, d, k),
+                                                         z3.Contains(seq, z3.Unit(epack(Val(pt, (k, heapops.dict_read(st.heap, d, k)))))))))
+            ops.USED.add(("card", str(d.t.ksort())))
+            st.pc.append(n == heapops.card_fn(d.t.ksort())(heapops.dict_dom(st.heap, d)))
+            if name == "tuple":
+                yield st, Val(TSeq(pt), seq)
+            else:
+                r = st.new_ref("list")
+                out = Val(TList(pt), r)
+                heapops.list_write(st.heap, out, seq)
+                yield st, out
+            return
         if dom[0] == "dict" and dom[2] == "keys":
             sv_ = Val(TSetV(dom[1].t.k), heapops.dict_dom(st.heap, dom[1]))
         elif dom[0] == "set":
